@@ -1113,8 +1113,10 @@ where
             _ => return Err(Error::InvalidFormatCode),
         };
 
-        // // AMQP map count includes both key and value, should be halfed
-        // let count = count / 2;
+        // AMQP map count includes both key and value, so it must be even
+        if count % 2 != 0 {
+            return Err(Error::InvalidLength);
+        }
         visitor.visit_map(MapAccess::new(self, size, count))
     }
 
